@@ -146,6 +146,23 @@ Proof.
 Qed.
 Print Assumptions C12_isolation_refuted.
 
+(* pending partials in front of the aggregator: NewValidPartial hands a verified partial over with one
+   blocking send on a channel of defaultPartialChanBuffer slots (obligation on the source). While the
+   aggregator takes nothing out of it (it is held in a Put by a stalled stream consumer, see (a)), a
+   member that sends any number of valid partials gets min(sent, capacity) of them pending and is then
+   held in its call: the node's memory for them does not grow with what the member sends *)
+Theorem C12_new_valid_partial_blocks : new_valid_partial_blocking_send = true /\ 0 < default_partial_chan_buffer.
+Proof. split; reflexivity. Qed.
+
+Theorem C12_pending_bounded : forall cap sent, 0 <= cap ->
+  np_run cap 0 sent = Z.min (Z.of_nat sent) cap /\ np_run cap 0 sent <= cap.
+Proof. intros cap sent H. split; [rewrite np_run_min by lia; reflexivity | apply np_run_le; lia]. Qed.
+Print Assumptions C12_pending_bounded.
+
+Example C12_pending_nonvacuous :
+  np_run default_partial_chan_buffer 0 4 = 4 /\ np_run default_partial_chan_buffer 0 150 = default_partial_chan_buffer.
+Proof. vm_compute. split; reflexivity. Qed.
+
 (* ================= (a) callback store ================= *)
 
 (* "Put never waits on a consumer", for arbitrarily long runs and all consumer behaviours *)
